@@ -136,6 +136,9 @@ def confirm(pid, k):
                 after[t] = 'ok'
         diff = {t: (base.get(t), after.get(t)) for t in set(base) | set(after) if base.get(t) != after.get(t)}
     clean(wt)
+    # what disqualifies a change is a test that passes without it and not with it; a timing-dependent
+    # test that failed in the baseline run and passes now says nothing about the change
+    diff = {t: v for t, v in diff.items() if v[0] == 'ok' and v[1] != 'ok'}
     npass = sum(1 for v in base.values() if v == 'ok')
     print(f'existing tests ({cmd}): {npass} pass without the change; differences with it: {diff if diff else "none"}')
     if diff or npass == 0:
